@@ -3,6 +3,7 @@ C08 — a crash at any point leaves the header stores recoverable and un-torn.
 Property theorems only; lemmas live in Neutrino/Lemmas/Store*.lean.
 -/
 import Neutrino.Lemmas.StoreFault
+import Neutrino.Lemmas.StoreStartup
 namespace Neutrino.Store
 
 /-- **Every crash point of every store operation, after every history.**
@@ -74,40 +75,107 @@ theorem C08_source_shape :
     Gen.Store.filterOpenResetBeforeSizeTest = true ∧
     0 < Gen.Store.blockHeaderSize ∧ 0 < Gen.Store.regularFilterHeaderSize := by decide
 
-/-- Every on-disk state the very first start can leave behind when it is killed
-— before, within (torn write of `jb`/`jf` bytes) or after each of its file
-writes and index transactions, or again while a later start is repeating an
-interrupted initialisation. -/
-def FirstInit (d : Durable) : Prop :=
-  (∃ jb, d = { bf := { ents := [], junk := jb }, ff := { ents := [] }, db := {} }) ∨
-  d = { bf := { ents := [0] }, ff := { ents := [] }, db := {} } ∨
-  (∃ jf, d = { bf := { ents := [0] }, ff := { ents := [], junk := jf }, db := { idx := [(0, 0)], btip := some 0 } }) ∨
-  d = { bf := { ents := [0] }, ff := { ents := [0] }, db := { idx := [(0, 0)], btip := some 0 } } ∨
-  d = init
+/-- **A start that is itself killed.**  From a state whose files are ahead of
+an index representing `l` (every state a crash in any operation leaves, and
+every consistent state), a start killed before any of its durable steps — the
+index's own transaction, the trim of a partial entry, the reconciling truncate
+of either store — leaves such a state again; so does every further killed
+start; and the first start that is left alone recovers exactly `l`. -/
+theorem C08_restart_killed (d : Durable) (l : Log) (h : AheadOf l d) (ks : List (Nat × Nat)) :
+    AheadOf l (ks.foldl (fun d kt => (exec d .reopen (.crash kt.1 kt.2)).1) d) ∧
+    ∃ r, reopen (ks.foldl (fun d kt => (exec d .reopen (.crash kt.1 kt.2)).1) d) = some r ∧ Rep r l := by
+  have step : ∀ d, AheadOf l d → ∀ k t, AheadOf l (exec d .reopen (.crash k t)).1 := by
+    intro d ⟨xb, xf, hA⟩ k t
+    have hR := reopenR_ahead { d := d, inj := .crash k t } l xb xf hA trivial
+    simp only [exec]
+    cases hres : reopenR { d := d, inj := .crash k t } with
+    | crashed d' => rw [hres] at hR; exact hR.2
+    | ok b c' =>
+      rw [hres] at hR
+      obtain ⟨hb, _, _, hrep⟩ := hR
+      subst hb
+      exact ⟨[], [], hrep.ahead⟩
+  have all : ∀ (ks : List (Nat × Nat)) d, AheadOf l d →
+      AheadOf l (ks.foldl (fun d kt => (exec d .reopen (.crash kt.1 kt.2)).1) d) := by
+    intro ks
+    induction ks with
+    | nil => intro d hd; exact hd
+    | cons kt ks ih => intro d hd; exact ih _ (step d hd kt.1 kt.2)
+  obtain ⟨xb, xf, hA⟩ := all ks d h
+  exact ⟨⟨xb, xf, hA⟩, reopen_ahead hA⟩
 
-/-- **The very first start is restartable** (after the repair
+/-- an undisturbed start, taken step by step, is the `reopen` of the theorems above -/
+theorem C08_start_steps_agree (d : Durable) (l : Log) (h : AheadOf l d) (s : Nat) :
+    ∃ c', reopenR { d := d, step := s, inj := .none } = .ok true c' ∧ reopen d = some c'.d := by
+  obtain ⟨xb, xf, hA⟩ := h
+  exact reopenR_quiet d s l xb xf hA
+
+/-- a killed start on the freshly initialised stores changes nothing (its only
+durable steps are the two index transactions) -/
+theorem restart_init_killed (k t : Nat) : (exec init .reopen (.crash k t)).1 = init := by
+  have e : ∀ k, k = 0 ∨ k = 1 ∨ 2 ≤ k := by omega
+  rcases e k with rfl | rfl | h2
+  · simp [exec, reopenR, openStoreR, R.andThen, R.bind, stageIndex, dbUpdate]
+  · simp [exec, reopenR, openStoreR, R.andThen, R.bind, stageIndex, stageTrim, stageReset, stageSync, dbUpdate, init,
+      Durable.file, Db.hasTip, btipHeight?, ftipHeight?, Db.height?, truncateHeaders]
+  · have h0 : k ≠ 0 := by omega
+    have h1 : k ≠ 1 := by omega
+    simp [exec, reopenR, openStoreR, R.andThen, R.bind, stageIndex, stageTrim, stageReset, stageSync, dbUpdate, init,
+      Durable.file, Db.hasTip, btipHeight?, ftipHeight?, Db.height?, truncateHeaders, h0, h1]
+
+/-- **The very first start is restartable at every instant** (after the repair
 `resetInterruptedInit`; before it the states with a genesis entry in a flat
 file but no tip in the index made the constructors fail for ever — recorded as
-`crash-during-first-init`, now `fixed:`).  From every such state the next start
-succeeds and yields exactly the freshly initialised stores. -/
-theorem C08_first_init (d : Durable) (h : FirstInit d) : reopen d = some init ∧ Rep init Log.init := by
-  refine ⟨?_, rep_init⟩
-  rcases h with ⟨jb, rfl⟩ | rfl | ⟨jf, rfl⟩ | rfl | rfl
-  · rfl
-  · decide
-  · rfl
-  · decide
-  · decide
+`crash-during-first-init`, now `fixed:`).  `FirstInit` (Lemmas/StoreStartup)
+lists every on-disk state a killed first start can leave: the block file empty
+or holding a torn genesis write of any length; the block file written but not
+indexed; the block store complete and the same three stages of the filter
+store.  From each of them a start that is killed again — before any durable
+step, a file write at any torn length — leaves another such state, any number
+of times; a start that is left alone yields exactly the freshly initialised
+stores. -/
+theorem C08_first_init (d : Durable) (h : FirstInit d) (ks : List (Nat × Nat)) :
+    let d' := ks.foldl (fun d kt => (exec d .reopen (.crash kt.1 kt.2)).1) d
+    (FirstInit d' ∨ d' = init) ∧ reopen d' = some init ∧ Rep init Log.init := by
+  have pure : ∀ d, FirstInit d → reopen d = some init := by
+    intro d h
+    rcases h with ⟨jb, rfl⟩ | rfl | ⟨jf, rfl⟩ | rfl
+    · rfl
+    · decide
+    · rfl
+    · decide
+  have hinit : reopen init = some init := by decide
+  have step : ∀ d, (FirstInit d ∨ d = init) → ∀ k t,
+      (FirstInit (exec d .reopen (.crash k t)).1 ∨ (exec d .reopen (.crash k t)).1 = init) := by
+    intro d hd k t
+    rcases hd with hd | rfl
+    · have hR := reopenR_firstInit { d := d, inj := .crash k t } hd trivial
+      simp only [exec]
+      cases hres : reopenR { d := d, inj := .crash k t } with
+      | crashed d' => rw [hres] at hR; exact Or.inl hR.2
+      | ok b c' =>
+        rw [hres] at hR
+        obtain ⟨hb, _, hd'⟩ := hR
+        subst hb
+        exact Or.inr hd'
+    · exact Or.inr (restart_init_killed k t)
+  have all : ∀ (ks : List (Nat × Nat)) d, (FirstInit d ∨ d = init) →
+      (FirstInit (ks.foldl (fun d kt => (exec d .reopen (.crash kt.1 kt.2)).1) d) ∨
+        ks.foldl (fun d kt => (exec d .reopen (.crash kt.1 kt.2)).1) d = init) := by
+    intro ks
+    induction ks with
+    | nil => intro d hd; exact hd
+    | cons kt ks ih => intro d hd; exact ih _ (step d hd kt.1 kt.2)
+  intro d'
+  have hd' := all ks d (Or.inl h)
+  refine ⟨hd', ?_, rep_init⟩
+  rcases hd' with h1 | h1
+  · exact pure _ h1
+  · show reopen (ks.foldl _ d) = some init
+    rw [h1]; exact hinit
 
-/-- the crash points the driver replays against the real constructors -/
-theorem C08_first_init_points (n : Nat) : FirstInit (initCrash n) := by
-  match n with
-  | 0 => exact Or.inl ⟨0, rfl⟩
-  | 1 => exact Or.inl ⟨0, rfl⟩
-  | 2 => exact Or.inr (Or.inl rfl)
-  | 3 => exact Or.inr (Or.inr (Or.inl ⟨0, rfl⟩))
-  | 4 => exact Or.inr (Or.inr (Or.inr (Or.inl rfl)))
-  | n + 5 => exact Or.inr (Or.inr (Or.inr (Or.inr rfl)))
+/-- the empty data directory is where it starts -/
+theorem C08_first_init_empty : FirstInit empty := Or.inl ⟨0, rfl⟩
 
 /-- the repair does not touch a directory that merely lost its database: with
 more than the initial entry in a flat file and no tip in the index the
@@ -121,6 +189,17 @@ theorem C08_first_init_keeps_data (ids : List Nat) (x y : Nat) (ff : FileSt) :
 
 /-! Non-vacuity: concrete states and crash points. -/
 example : Rep init Log.init := rep_init
+-- the very first start killed 40 bytes into the block store's genesis write, the restart killed right before the
+-- filter store's index transaction, the third start left alone
+example : (exec empty .reopen (.crash 1 40)) = ({ bf := { ents := [], junk := 40 }, ff := { ents := [] }, db := {} }, .crashed) := by
+  decide
+example : (exec (exec empty .reopen (.crash 1 40)).1 .reopen (.crash 6 0)).1 =
+    { bf := { ents := [0] }, ff := { ents := [0] }, db := { idx := [(0, 0)], btip := some 0 } } := by decide
+example : reopen (exec (exec empty .reopen (.crash 1 40)).1 .reopen (.crash 6 0)).1 = some init := by decide
+-- a start killed while it reconciles the block file after a crashed append
+example : (exec (exec init (.wb [1, 2, 3]) (.crash 0 170)).1 .reopen (.crash 2 0)) =
+    ({ bf := { ents := [0, 1, 2] }, ff := { ents := [0] }, db := { idx := [(0, 0)], btip := some 0, ftip := some 0 } }, .crashed) := by
+  decide
 example : (exec init (.wb [1, 2, 3]) (.crash 0 100)).2 = .crashed := by decide
 example : (exec init (.wb [1, 2, 3]) (.crash 0 100)).1.bf = { ents := [0, 1], junk := 20 } := by decide
 example : (reopen (exec init (.wb [1, 2, 3]) (.crash 0 100)).1).map (·.bf) = some { ents := [0] } := by decide
